@@ -322,7 +322,10 @@ var c14Exotic = []string{" ", "a b", " a", "a ", "a: b", ":", "- a", "-", "?", "
 
 // c14MergeKeyLiteral switches the generation of the level string "<<": a
 // cleanSession=false session holding the one-level filter "<<" is stored as a
-// YAML document that cannot be read back (see header, C14.restore-lost.stored-session-undecodable).
+// YAML document that cannot be read back (yaml.v2 writes the key plain and
+// reads it as the merge key): class C14.restore-lost.stored-session-undecodable,
+// a known finding (known_findings.txt); the class is only used when the
+// session really held "<<" and its stored document really fails to decode.
 const c14MergeKeyLiteral = true
 
 func c14Gen(rng *sim.Rand, tier string) interface{} {
@@ -860,6 +863,7 @@ func c14Exec(r *sim.Run, sci interface{}) {
 	limbo := map[string]bool{}       // between the two halves of a disconnect: the statement does not say whether the client's subscriptions still count, nor what a packet processed now achieves
 	cleaned := map[string]string{}   // in limbo AND the connection's clean-up has already run (admin deletion, write loop's error path): value = which
 	undecodableWhy := map[string]string{}
+	lostRestore := map[string]map[string]bool{} // attribution only: the filters such a session held
 	undecodable := map[string]bool{} // attribution only: the stored session the connection should have resumed cannot be decoded
 	lateSubs := map[string]map[string]map[byte]bool{} // attribution only: filters of SUBSCRIBEs processed between the halves of the id's current disconnect
 	lateWhy := map[string]string{}   // attribution only: which kind of clean-up preceded the id's late SUBSCRIBE
@@ -925,6 +929,7 @@ func c14Exec(r *sim.Run, sci interface{}) {
 		var out []string
 		for _, id := range c14Keys(ids) {
 			must, may, wild, dollarRouted := false, false, false, false
+			mustOther := false // some matching live filter is not one of those an undecodable stored session took with it
 			okQ := map[byte]bool{}
 			var why []string
 			for _, f := range c14Keys(ref.subs[id]) {
@@ -953,6 +958,9 @@ func c14Exec(r *sim.Run, sci interface{}) {
 					}
 				case e.definite && !limbo[id]:
 					must = true
+					if !lostRestore[id][f] {
+						mustOther = true
+					}
 				default:
 					may = true
 				}
@@ -999,7 +1007,7 @@ func c14Exec(r *sim.Run, sci interface{}) {
 				r.Probe("route.dollar_topic_routed_only_through_leading_wildcard")
 			}
 			switch {
-			case must && !in && undecodable[id]:
+			case must && !in && undecodable[id] && !mustOther:
 				violate("C14.restore-lost.stored-session-undecodable", "%s: topic %q is not routed to client %s, which resumed its cleanSession=false session and so holds matching subscription(s) %v: the stored session document could not be decoded again (%s), the connection got a fresh, empty session; got %v", who, topic, id, why, undecodableWhy[id], c14Render(res))
 				return "bad"
 			case must && !in:
@@ -1190,14 +1198,25 @@ func c14Exec(r *sim.Run, sci interface{}) {
 		var c *Client
 		inv := r.Seq()
 		delete(undecodable, id)
+		delete(lostRestore, id)
 		if persist && len(ref.stored[id]) > 0 {
 			// attribution only (which class a later routing violation gets)
 			if str, err := b.sessMgr.store.get(sessionStoreKey(id)); err == nil && str != nil {
 				probe := &Session{info: &SessionInfo{}}
 				if derr := probe.decode(*str); derr != nil {
-					undecodable[id] = true
-					undecodableWhy[id] = derr.Error()
-					r.Probe("conn.stored_session_document_undecodable")
+					// the specific (known) cause only: one of the session's filters is
+					// the YAML merge key. Any other loss keeps the general class.
+					if _, mergeKey := ref.stored[id]["<<"]; mergeKey {
+						undecodable[id] = true
+						undecodableWhy[id] = derr.Error()
+						lostRestore[id] = map[string]bool{}
+						for f := range ref.stored[id] {
+							lostRestore[id][f] = true
+						}
+						r.Probe("conn.stored_session_undecodable_because_of_merge_key_filter")
+					} else {
+						r.Probe("conn.stored_session_undecodable_for_another_reason")
+					}
 				}
 			}
 		}
@@ -1359,6 +1378,7 @@ func c14Exec(r *sim.Run, sci interface{}) {
 				if strings.Count(f, "/") >= 5 {
 					r.Probe("sub.filter_of_6_or_more_levels")
 				}
+				delete(lostRestore[id], f)
 				if ref.subscribe(id, f, qs[i]) {
 					r.Probe("sub.resubscribe_other_qos")
 				}
